@@ -34,6 +34,8 @@ class Walker:
         self.derived = 0
         self.recent = []            # (name, built) of recently judged calls: repeat() re-issues one after an in-place change of an operand
         self._force = None
+        self.last = None
+        self._same_shape = False
         self.judge = set(judge)     # operation names whose returned VALUE is compared with a dense model of the operands as they are at the call (history oracle)
 
     # ---- operand supply -------------------------------------------------------------------------------
@@ -178,17 +180,54 @@ class Walker:
         a result memoised on the object (or on its identity) and not invalidated by the change is stale here."""
         if not self.recent:
             return None
-        name, built = self.rng.choice(self.recent)
+        name, built, sig = self.rng.choice(self.recent)
         tts = [a for a in built[2] if isinstance(a, self.tt.TT)]
         if not tts:
             return None
+        if sig != self._struct(built[2]):
+            # an operand was restructured in place since the call was built (reduce_dims, a resizing set_core): the closures of the call describe the old
+            # structure - not a repeat of "the same call" any more
+            self.ctx.count('history_repeat_skipped_operand_restructured')
+            return None
         self._force = self.rng.choice(tts)
+        self._same_shape = True
         try:
-            self.step(self.rng.choice(('set_core', 'core_write', 'core_write')))
+            self.step(self.rng.choice(('set_core', 'core_write', 'core_write')))      # values change, structure stays
         finally:
             self._force = None
+            self._same_shape = False
+        if sig != self._struct(built[2]):
+            return None
         self.ctx.count('history_repeat_after_inplace')
         return self.step(name, built=built)
+
+    def _struct(self, args):
+        out = []
+        for a in args:
+            if isinstance(a, self.tt.TT):
+                try:
+                    out.append((bool(a.is_ttm), tuple(int(n) for n in a.N), tuple(int(m) for m in a.M) if a.is_ttm else (), tuple(int(r) for r in a.R)))
+                except Exception:
+                    out.append(None)
+        return out
+
+    def again(self, then_edit=False):
+        """THE SAME call once more on unchanged operands (a second, independent result is due); optionally the second result is then edited in place
+        (set_core), which must leave the first one alone."""
+        if self.last is None:
+            return None
+        name, built, sig = self.last
+        if sig != self._struct(built[2]) or name in ('set_core', 'reduce_dims', 'scribble', 'core_write', 'watch', 'set_core_rejected'):
+            return None
+        self.ctx.count('same_call_again')
+        r = self.step(name, built=built)
+        if then_edit and isinstance(r, self.tt.TT) and len(r.cores) > 0:
+            self._force, self._same_shape = r, True
+            try:
+                self.step('set_core')
+            finally:
+                self._force, self._same_shape = None, False
+        return r
 
     def step(self, opname=None, built=None):
         name = opname or self.rng.choice(OP_NAMES)
@@ -202,8 +241,9 @@ class Walker:
         if built is None:
             return None
         label, f, args, kw = built[0], built[1], built[2], dict(built[3] if len(built) > 3 else {})
+        self.last = (name, built, self._struct(args))
         if name in self.judge and '_model' in kw:
-            self.recent.append((name, built))
+            self.recent.append((name, built, self._struct(args)))
             if len(self.recent) > 6:
                 self.recent.pop(0)
         inplace = kw.pop('_inplace', ())
@@ -881,13 +921,44 @@ def _(w):
     x = w.pick()
     k = w.rng.randrange(len(x.N))
     sh = list(x.cores[k].shape)
-    if w.rng.random() < 0.5:
+    if w.rng.random() < 0.5 and not w._same_shape:
         sh[1] = w.rng.choice((1, 2, 3))       # mode-size-changing core
         if x.is_ttm and w.rng.random() < 0.5:
             sh[2] = w.rng.choice((1, 2, 3))
     core = gens.values(sh, x.cores[k].dtype, 'gauss', w.g)
     w.derived += 1
     return 'set_core', lambda a: a.set_core(k, core), (x,), {'_inplace': (x,)}
+
+
+@op('ctor_rejected')
+def _(w):
+    """Core lists the constructor must not turn into an object (3-d and 4-d cores mixed with chaining ranks, neighbouring ranks that disagree, boundary ranks other than 1,
+    rank1TT of a vector and a matrix): whatever comes back - an exception today - every object in existence is self-consistent afterwards."""
+    N = w.small_shape(3)
+    d = len(N)
+    R = [1] + [w.rng.randint(1, 3) for _ in range(d - 1)] + [1]
+    how = w.rng.choice(['mixed-3d-4d', 'mixed-3d-4d', 'rank-mismatch', 'boundary-rank', 'rank1TT-mixed'])
+    if how == 'rank1TT-mixed':
+        vs = [gens.values([n], w.dt, 'gauss', w.g) for n in N]
+        j = w.rng.randrange(d)
+        vs[j] = gens.values([N[j], w.rng.choice((1, 2))], w.dt, 'gauss', w.g)
+        if d == 1:
+            raise _NA()
+        return 'rank1TT(rejected:vector+matrix)', lambda: w.tt.rank1TT(vs), ()
+    cores = gens.make_cores(N, R, w.dt, 'gauss', w.g)
+    j = w.rng.randrange(d)
+    if how == 'mixed-3d-4d':
+        if d == 1:
+            raise _NA()
+        cores[j] = gens.values([R[j], N[j], w.rng.choice((1, 2)), R[j + 1]], w.dt, 'gauss', w.g)
+    elif how == 'rank-mismatch':
+        if d == 1:
+            raise _NA()
+        j = w.rng.randrange(d - 1)
+        cores[j] = gens.values([R[j], N[j], R[j + 1] + 1], w.dt, 'gauss', w.g)
+    else:
+        cores[0] = gens.values([2, N[0], R[1]], w.dt, 'gauss', w.g)
+    return 'TT(cores,rejected:%s)' % how, lambda: w.tt.TT(cores), ()
 
 
 @op('set_core_rejected')
